@@ -118,8 +118,11 @@ func (e EvmEngine) genLeaf(r *Run, bit int, nNodes int, v *ChainView) []PAct {
 		if len(pend) > 0 && r.Pct(60) {
 			return []PAct{mk("crosschain", "executeClaim", "$chain", fmt.Sprint(pend[r.Rng.IntN(len(pend))]))}
 		}
-		// outgoing bridge call with a token
+		// outgoing bridge call with a token (sometimes after moving the same token directly)
 		ap := PAct{K: "pre", T: "token:USDT", M: "approve", Args: []string{cctypes.GetAddress().Hex(), "1000000000000"}, Bit: bit + 1}
+		if r.Pct(50) {
+			ap = PAct{K: "pre", T: "token:USDT", M: "transfer", Args: []string{someone(), "7"}, Bit: bit + 1}
+		}
 		bc := mk("crosschain", "bridgeCall", "$chain", someone(), "$USDT", tokAmt, fmt.Sprintf("$ext%d", r.Rng.IntN(5)), "", "0", "")
 		return []PAct{ap, bc}
 	}
@@ -202,6 +205,9 @@ func (e EvmEngine) genC09(r *Run) Step {
 	}
 	if nOK == 0 || r.Pct(35) {
 		p := e.genProgram(r)
+		if r.Pct(25) { // contracts that touch a token directly and convert it through a precompile
+			p = e.genMixProgram(r, []string{"USDT", "WFX"}[r.Rng.IntN(2)])
+		}
 		bz, _ := json.Marshal(p)
 		return Step{Kind: "deploy", A: A("prog", string(bz), "deployer", KeyName("user", r.Rng.IntN(st.NUsers)), "fund_fx", FX(100).String(), "fund_usdt", 20000)}
 	}
